@@ -29,6 +29,97 @@ def run(fx, rep, tier):
     rule_aspwin(fx, rep)
     rule_rootret(fx, rep, neg)
     rule_mateconv(fx, rep)
+    rule_zerowin(fx, rep, neg)
+    rule_matesrc(fx, rep, neg)
+
+
+def rule_matesrc(fx, rep, neg):
+    """Mate scores originate only where a line is recorded: Eval::mated_in / mate_in are called, inside the search, by negamax
+    (under the no-legal-move guard, C08-MATE) and by the tablebase code only. A mate score produced elsewhere (e.g. in
+    quiescence, which keeps no line) is backed up as exact and announced with a line that stops short of the mate."""
+    search = fx.one("engine::search::search")
+    cone = fx.cone([search.name])
+    ok = True
+    n = 0
+    for (b, bb, t) in fx.callers_of(lambda nm: nm.endswith("Eval::mated_in") or nm.endswith("Eval::mate_in")):
+        if b.name not in cone or "::tests::" in b.name:
+            continue
+        n += 1
+        good = b.name == neg.name or "tablebase" in norm(b.name) or norm(b.name).endswith("search::get_tablebase_pv") or tablebase_guarded(b, bb)
+        rep.obligation(good)
+        if not good:
+            ok = False
+            rep.violation("C08-MATESRC", f"C08-MATESRC/{norm(b.name).split('::')[-1]}", f"`{b.name}` line {t.get('line')} creates a mate score outside negamax's no-legal-move case: no line is recorded there, so the mate is announced with a line that does not reach it",
+                          {"fn": b.name, "file": b.file, "line": t.get("line")})
+    rep.rule("C08-MATESRC", n, 1, ok, "mate scores created only by negamax / tablebase code")
+
+
+def rule_zerowin(fx, rep, neg):
+    """A move enters the principal variation only on an exact score: the score compared with alpha right before `pv.push` never
+    comes from a zero-window search ((-alpha-1, -alpha)) on a feasible path - the code re-searches with the full window whenever
+    such a score lands inside (alpha, beta). Decided by enumerating the paths from make_move to pv.push with their comparison
+    outcomes and discarding those whose comparisons contradict each other."""
+    mk = neg.calls_to("Game::make_move")
+    push = {bb for bb, t in neg.calls_to("PrincipalVariation::push")}
+    if len(mk) != 1 or not push:
+        rep.notes.append("C08-ZEROWIN: negamax does not have one make_move and a pv.push; clause not decided")
+        rep.rule("C08-ZEROWIN", 0, 0, True, "not decided")
+        return
+    paths = decision_paths(neg, 4000, start=mk[0][0], stop=push)
+    if not paths or len(paths) >= 4000:
+        rep.notes.append("C08-ZEROWIN: too many paths between make_move and pv.push; clause not decided")
+        rep.rule("C08-ZEROWIN", 0, 0, True, "not decided")
+        return
+
+    def zero_window(score):
+        calls = find_calls(score, "negamax::negamax")
+        if not calls:
+            return None
+        c = calls[0]
+        a, b = deep_strip(c[2][1]), deep_strip(c[2][2])
+        return isinstance(a, tuple) and a[0] == "call" and a[1].endswith("Sub>::sub") and deep_strip(a[2][0]) == b
+
+    allowed = {("Gt", True): {"gt"}, ("Gt", False): {"lt", "eq"}, ("Ge", True): {"gt", "eq"}, ("Ge", False): {"lt"}, ("Lt", True): {"lt"}, ("Lt", False): {"gt", "eq"},
+               ("Le", True): {"lt", "eq"}, ("Le", False): {"gt"}, ("Eq", True): {"eq"}, ("Eq", False): {"lt", "gt"}, ("Ne", True): {"lt", "gt"}, ("Ne", False): {"eq"}}
+    ok = True
+    n = 0
+    undecided = 0
+    for conds, _env, bb in paths:
+        rel = {}
+        feasible = True
+        pushed = None
+        for (e, val) in conds:
+            co = cmp_op(deep_strip(e)) if isinstance(deep_strip(e), tuple) else None
+            if not co:
+                continue
+            truth = (val != 0) if isinstance(val, int) else (0 in val[1] if isinstance(val, tuple) and val[0] == "otherwise" else None)
+            if truth is None:
+                continue
+            x, y = deep_strip(co[1]), deep_strip(co[2])
+            key = (show(x), show(y))
+            cur = rel.get(key, {"lt", "eq", "gt"}) & allowed[(co[0], truth)]
+            rel[key] = cur
+            if not cur:
+                feasible = False
+            if co[0] == "Gt" and truth and find_calls(x, "negamax::negamax"):
+                pushed = x  # the last `score > ..` taken true before the push is the alpha test
+        if not feasible:
+            continue
+        if pushed is None:
+            undecided += 1
+            continue
+        n += 1
+        zw = zero_window(pushed)
+        good = zw is False
+        rep.obligation(good)
+        if not good and ok:
+            ok = False
+            rep.violation("C08-ZEROWIN", "C08-ZEROWIN/push", f"negamax can extend the principal variation with a move whose score `{show(pushed)[:110]}` comes from a zero-window search that was not re-searched with the full window: "
+                          "such a score is a bound, and the child line behind it was collected in non-PV nodes (hash cut-offs, pruning), so it may stop short - e.g. of an announced mate",
+                          {"fn": neg.name, "file": neg.file, "line": neg.blocks[bb]["term"].get("line")})
+    if undecided:
+        rep.notes.append(f"C08-ZEROWIN: {undecided} feasible path(s) to pv.push without a recognisable score test; not decided for those")
+    rep.rule("C08-ZEROWIN", n, 2, ok, "feasible paths from make_move to pv.push carry a full-window score")
 
 
 def int_eval(fx, e, env):
@@ -616,6 +707,10 @@ NG = "src/engine/search/negamax.rs"
 ID = "src/engine/search/iterative_deepening.rs"
 PE = "src/engine/eval/player_eval.rs"
 MUTANTS = [
+    {"name": "reduced zero-window result accepted after a second zero-window search (seed C08-4a)", "expect": "C08-ZEROWIN",
+     "edits": [("src/engine/search/negamax.rs", "            if pvs_score > alpha && pvs_score < beta {\n                -negamax(game, -beta, -alpha, depth - 1, plies + 1, &mut node_pv, ctx)?", "            if pvs_score > alpha && reduction > 1 {\n                -negamax(game, -alpha - Eval(1), -alpha, depth - 1, plies + 1, &mut node_pv, ctx)?\n            } else if pvs_score > alpha && pvs_score < beta {\n                -negamax(game, -beta, -alpha, depth - 1, plies + 1, &mut node_pv, ctx)?")]},
+    {"name": "quiescence announces mates itself (seed C08-4b)", "expect": "C08-MATESRC/quiescence",
+     "edits": [("src/engine/search/quiescence.rs", "    let eval = eval::eval(game);\n\n    if eval >= beta {", "    if game.is_king_in_check() && game.moves().is_empty() {\n        return Ok(Eval::mated_in(plies));\n    }\n\n    let eval = eval::eval(game);\n\n    if eval >= beta {")]},
     {"name": "mate distance announced without rounding up", "expect": "C08-MATECONV",
      "edits": [("src/engine/eval/player_eval.rs", "            return Some((Self::MATE - self.0 + 1) / 2);", "            return Some((Self::MATE - self.0) / 2);")]},
     {"name": "being mated announced with the wrong sign", "expect": "C08-MATECONV",
